@@ -25,7 +25,8 @@ SPEC = dict(
     ),
     bound=dict(
         quick="trunks with 1 op (scenarios S1, S2; 1..2 features in both orders) x all head assignments for 1..2 tasks, "
-              "the 8 consecutive template triples for 3 tasks; 9 head templates",
+              "the consecutive template triples for 3 tasks; 10 head templates; five- and six-task cases (chunk sizes m-1, m-2) on six trunks; "
+              "configurations: every loss order, shared all / reversed / dependencies / default / empty, container kinds, repeated call on a retained graph, rejection of overlapping defaults",
         thorough="trunks with <= 2 ops (S1, S2; features in ascending order) x consecutive-template assignments for 1..3 tasks, "
                  "plus the whole quick space",
     ),
